@@ -11,7 +11,13 @@ import (
 	"time"
 )
 
-const verifDir = "/verif"
+// verifDir is where specs, harnesses, known findings, evidence and replays live (/verif; $VERIF_DIR for snapshots).
+var verifDir = func() string {
+	if d := os.Getenv("VERIF_DIR"); d != "" {
+		return d
+	}
+	return "/verif"
+}()
 
 // Spec is /verif/checks/<id>.json: which harness entry points decide a property, under which bounds.
 type Spec struct {
